@@ -62,6 +62,15 @@ let () =
              | Some (Some (cc, args)) ->
                let names = (if string_of_z cc = "1" then ["74686973"] else []) @ List.map enc args in
                "A " ^ string_of_z cc ^ " " ^ String.concat "," names)
+          | "I" ->
+            let _mem64 = next () in let _os = next () in
+            let cpu = nz () in let ip = nz () in let l = nz () in
+            let n = int_of_string (next ()) in
+            let regs = List.init n (fun _ -> let a = nz () in let b = nz () in (a, b)) in
+            (* the thread stack (64 bytes at 0x10000) is the first region of every synthesized dump *)
+            (match string_of_z (run_fetch cpu ((z_of_int 0x10000, z_of_int 64) :: regs) ip l) with
+             | "3" -> "P;;"
+             | s -> "I " ^ s)
           | "J" ->
             let rd () = let n = int_of_string (next ()) in
               List.init n (fun _ -> let a = nz () in let b = nz () in (a, b)) in
